@@ -7,7 +7,7 @@ from .state import State, Exc, Res
 from .engine import FA, zand, zor, STR_LOWER, STR_UPPER, INT_OF_STR_OK, INT_OF_STR
 from .expr import ufun, S
 
-TYPE_NAMES = {'PATH': PATH, 'INT': INT, 'BOOL': BOOL, 'REAL': REAL, 'STR': STR, 'VAL': VAL, 'BYTES': BYTES,
+TYPE_NAMES = {'REPEV': REPEV, 'PATH': PATH, 'INT': INT, 'BOOL': BOOL, 'REAL': REAL, 'STR': STR, 'VAL': VAL, 'BYTES': BYTES,
               'SIGEV': SIGEV, 'PUBEV': PUBEV}
 
 
@@ -22,7 +22,7 @@ class SpecMixin(object):
         'prefix_of', 'suffix_of', 'contains', 'index_of', 'str_to_int', 'iff', 'distinct_keys',
         'null', 'isnull', 'in_re', 'last', 'card', 'real', 'tag_eq', 'obj_of', 'same_ghost',
         'str_of_int', 'length', 'ref_id', 'distinct', 'sig_mode', 'path_idx', 'slen', 'path_inv',
-        'is_bytes', 'as_bytes', 'init',
+        'is_bytes', 'as_bytes', 'init', 'repev', 'rp_cid', 'rp_mid', 'rp_status',
     ])
 
     # ------------------------------------------------------------------ entry points
@@ -123,7 +123,17 @@ class SpecMixin(object):
             bound.append(v.z)
             st2.env[n] = v
         body = self.truthy(st2, self.ev1(lam.body, st2))
-        return SV(BOOL, q(bound, body))
+        res = q(bound, body)
+        if q is z3.ForAll and len(bound) == 1 and self.spec_pol < 0:
+            # assumed universal: also instantiate it at every skolem constant of the goal (add_vc
+            # mentions each skolem under hint!<sort>), in case its body offers no usable trigger
+            b0 = bound[0]
+            hf = z3.Function('hint!%s' % str(b0.sort()).replace(' ', '_'), b0.sort(), z3.BoolSort())
+            try:
+                res = z3.And(res, z3.ForAll(bound, body, patterns=[hf(b0)]))
+            except z3.Z3Exception:
+                pass
+        return SV(BOOL, res)
 
     def spec_type(self, t):
         if isinstance(t, ast.Name) and t.id in TYPE_NAMES:
@@ -525,6 +535,22 @@ class SpecMixin(object):
         (a,) = self._args(e, st)
         return SV(REAL, SigEv.sg_t(a.z))
 
+    def spec_repev(self, e, st):
+        a = [self.coerce(x, VAL) for x in self._args(e, st)]
+        return SV(REPEV, RepEv.mk_rep(a[0].z, a[1].z, a[2].z))
+
+    def spec_rp_cid(self, e, st):
+        (a,) = self._args(e, st)
+        return SV(VAL, RepEv.rp_cid(a.z))
+
+    def spec_rp_mid(self, e, st):
+        (a,) = self._args(e, st)
+        return SV(VAL, RepEv.rp_mid(a.z))
+
+    def spec_rp_status(self, e, st):
+        (a,) = self._args(e, st)
+        return SV(VAL, RepEv.rp_status(a.z))
+
     def spec_pubev(self, e, st):
         w, t, p, c = self._args(e, st)
         return SV(PUBEV, PubEv.mk_ev(w.z, t.z, p.z, c.z))
@@ -632,6 +658,11 @@ class SpecMixin(object):
             if '.' not in m:
                 self.oos('bad modifies entry %r' % m, node)
             head, field = m.rsplit('.', 1)
+            if head in self.spec.classes and field == '*':
+                for cn in self.spec.mro(head):
+                    for fld in self.spec.classes[cn].fields:
+                        out['keys'][(cn, fld)] = None
+                continue
             if head in self.spec.classes or head.startswith('$'):
                 key, ty = self.field_info(head, field, node)
                 out['keys'][key] = None
@@ -838,7 +869,7 @@ class SpecMixin(object):
         post.env['result'] = result
         feasible = True
         conds = []
-        for ens in c.ensures:
+        for ens in list(c.ensures) + list(c.assumed):
             cz = self.spb(ens, post, -1)
             if z3.is_false(cz):
                 feasible = False
